@@ -14,6 +14,7 @@ This is a supplementary module: the helper family it needs (`Proofs/RewardD`, `G
 imported together with the family `Props/C12.lean` uses (`Proofs/StorageB`).
 -/
 import Canine.Props.C05
+import Canine.Proofs.GaugeExactMsg
 namespace Canine.Storage
 open Bank GI
 
@@ -76,5 +77,447 @@ example : ∃ s', runB exS0 exHist = some s' ∧
     ∀ kv ∈ s'.gauges, kv.2.startT ≤ lastTime exT0 exHist :=
   ⟨_, exRun, fun kv hkv =>
     (C12_never_ahead_of_schedule_along_histories exE exHist exS0 _ exT0 exHyps.1 exHyps.2.1 exHyps.2.2 exRun kv hkv).1⟩
+
+end Canine.Storage
+
+/-! ## C12 along whole executions: the equality, monotonicity, nothing outside the interval
+
+The bound above is an inequality because anybody may *credit* an escrow account.  Under the hypothesis
+that nobody does (`NoCreditAlong`), the strengthened invariant `GaugeExact` of
+`Proofs/GaugeExact{Def,Block,Msg}.lean` holds along every history: for every stored gauge there is an
+instant `t'` of its life, not after the current time — the time of the last reward block that visited
+it, or its start time — with `A − bal = Dec.trunc (would startT endT t' A)` per recorded coin.
+
+**The side condition `NoCreditAlong`** (nothing about amounts, ratios or decimals):
+* per message, `NoCredit`: the POL account, the fee account and the referrer a `buyStorage` pays are not
+  escrow accounts of stored gauges or of the gauge being created; and the escrow account of a gauge
+  that is about to be *created* is not the signer and holds no ujkl yet;
+* per reward block, `BlockNoCredit`: none of the provers the block pays is the escrow account of a
+  stored gauge.
+All other credits of the storage module go to the module account, the collateral account
+(`GaugeInv.accNe`), a signer (`MsgOk.signer`), or are the deposit that creates / tops up the gauge.
+Each condition is benign: an escrow account is `E.accOf id`, a hash-derived address for which nobody
+holds a key, and the chain's id contains the block height, so an id is not re-used once its gauge has
+been removed.  Paying such an address on purpose only delays the stream: `A − bal` drops below the
+schedule, `C12_never_ahead_of_schedule_along_histories` still holds, and the next reward block releases
+the surplus too (`C12_released_equals_schedule_after_reward_block` needs `BlockNoCredit` of that one
+block only).
+
+**`would` is the closed form of `Props/C12.lean`.**  `would startT endT now A` is by definition
+`Dec.mul (ratioAt startT endT now) (Dec.ofInt A)` with `ratioAt = 1 − Quo(leftUs, totalUs)`,
+`leftUs = endT/1000 − now/1000`, `totalUs = endT/1000 − startT/1000` (whole microseconds of the
+instants): `Dec.trunc (would …)` is `trunc(ratio·A)`, the `cumulative` of `C12_release_formula`
+(`C12_schedule_is_truncated_ratio` below; `Props/C12.lean` cannot be imported here). -/
+namespace Canine.Storage
+open Bank GI
+
+/-- **No outside credit along a history**: `NoCredit` for every message, `BlockNoCredit` for every
+block, each in the state it is applied to. -/
+def NoCreditAlong (s : State) : List (Int × Int × BEv) → Prop
+  | [] => True
+  | (h, now, .msg op) :: rest => NoCredit s op ∧ NoCreditAlong (stepT s h now op) rest
+  | (h, now, .block) :: rest => BlockNoCredit s h ∧ ∀ s', beginBlock s h now = .ok s' → NoCreditAlong s' rest
+
+/-- the schedule value is the elapsed fraction (as `pullTokensFromGauges` computes it with `sdk.Dec`)
+applied to the deposit, truncated -/
+theorem C12_schedule_is_truncated_ratio (startT endT now A : Int)
+    (hT : Int.tdiv endT 1000 - Int.tdiv startT 1000 ≠ 0) :
+    ∃ q, Dec.quo? (Dec.ofInt (Int.tdiv endT 1000 - Int.tdiv now 1000))
+            (Dec.ofInt (Int.tdiv endT 1000 - Int.tdiv startT 1000)) = some q ∧
+      Dec.trunc (would startT endT now A) = Dec.trunc (Dec.mul (Dec.sub Dec.one q) (Dec.ofInt A)) := by
+  obtain ⟨q, hq, hr⟩ := quo_ratioAt startT endT now hT
+  exact ⟨q, hq, by rw [hr]; rfl⟩
+
+/-- **C12, histories: the exact invariant holds along every history** that satisfies `HistOk` and
+`NoCreditAlong`, from any state satisfying the invariants. -/
+theorem C12_gaugeExact_along_histories (E : EscrowScheme) :
+    ∀ (hist : List (Int × Int × BEv)) (s s' : State) (t0 : Int),
+      NoPanicInv s → GaugeExact E s t0 → HistOk E s t0 hist → NoCreditAlong s hist → runB s hist = some s' →
+      NoPanicInv s' ∧ GaugeExact E s' (lastTime t0 hist)
+  | [], s, s', _, hinv, hg, _, _, hr => by
+    simp only [runB, Option.some.injEq] at hr; subst hr; exact ⟨hinv, hg⟩
+  | (h, now, .msg op) :: rest, s, s', t0, hinv, hg, hh, hn, hr => by
+    simp only [runB] at hr
+    obtain ⟨ht, hok, hrest⟩ := hh
+    obtain ⟨hnc, hnrest⟩ := hn
+    refine C12_gaugeExact_along_histories E rest _ s' now ?_ (stepT_gaugeExact (hg.advance ht) hok hnc) hrest hnrest hr
+    unfold stepT
+    cases hs : step s h now op with
+    | none => simpa using hinv
+    | some s1 => simpa using (C05_validation_establishes_sizes s s1 h now hinv).1 op hs
+  | (h, now, .block) :: rest, s, s', t0, hinv, hg, hh, hn, hr => by
+    simp only [runB] at hr
+    obtain ⟨ht, hrest⟩ := hh
+    obtain ⟨hnc, hnrest⟩ := hn
+    split at hr
+    · rename_i s1 hb
+      exact C12_gaugeExact_along_histories E rest s1 s' now
+        ((C05_validation_establishes_sizes s s1 h now hinv).2 hb) (beginBlock_gaugeExact hinv.2 (hg.advance ht) hnc hb)
+        (hrest s1 hb) (hnrest s1 hb) hr
+    · simp at hr
+
+/-- at genesis (no gauges, a ledger in order) the exact invariant holds -/
+theorem C12_gaugeExact_genesis (E : EscrowScheme) (s : State) (t : Int) (hG : s.gauges = [])
+    (hnn : ∀ kv ∈ s.bank, 0 ≤ kv.2) (hsup : ∀ d, supply s.bank d ≤ I64.maxV) : GaugeExact E s t :=
+  GaugeExact.init E s t hG ⟨hnn, hsup⟩
+
+/-- the side conditions of a history split at any point of it -/
+theorem hist_split (E : EscrowScheme) :
+    ∀ (pre post : List (Int × Int × BEv)) (s s1 : State) (t0 : Int),
+      HistOk E s t0 (pre ++ post) → NoCreditAlong s (pre ++ post) → runB s pre = some s1 →
+      HistOk E s t0 pre ∧ NoCreditAlong s pre ∧ HistOk E s1 (lastTime t0 pre) post ∧ NoCreditAlong s1 post
+  | [], post, s, s1, t0, hh, hn, hr => by
+    simp only [runB, Option.some.injEq] at hr; subst hr
+    exact ⟨trivial, trivial, hh, hn⟩
+  | (h, now, .msg op) :: pre, post, s, s1, t0, hh, hn, hr => by
+    simp only [List.cons_append, HistOk, NoCreditAlong, runB, lastTime] at hh hn hr ⊢
+    obtain ⟨a1, a2, a3⟩ := hh
+    obtain ⟨b1, b2⟩ := hn
+    obtain ⟨i1, i2, i3, i4⟩ := hist_split E pre post _ s1 now a3 b2 hr
+    exact ⟨⟨a1, a2, i1⟩, ⟨b1, i2⟩, i3, i4⟩
+  | (h, now, .block) :: pre, post, s, s1, t0, hh, hn, hr => by
+    simp only [List.cons_append, HistOk, NoCreditAlong, runB, lastTime] at hh hn hr ⊢
+    obtain ⟨a1, a2⟩ := hh
+    obtain ⟨b1, b2⟩ := hn
+    split at hr
+    · rename_i s' hb
+      obtain ⟨i1, i2, i3, i4⟩ := hist_split E pre post s' s1 now (a2 s' hb) (b2 s' hb) hr
+      refine ⟨⟨a1, fun s'' hb'' => ?_⟩, ⟨b1, fun s'' hb'' => ?_⟩, i3, i4⟩
+      · rw [hb] at hb''; cases hb''; exact i1
+      · rw [hb] at hb''; cases hb''; exact i2
+    · simp at hr
+
+/-- **C12: one reward block makes every gauge exact.**  Take a state satisfying the invariants
+(`GaugeInv` — the upper bound — suffices: earlier credits to escrow accounts are allowed) and a reward
+block at time `now` whose reward path runs (`h` is a multiple of the check window) and whose payouts
+credit no escrow account.  Afterwards every stored gauge is live (`startT ≤ now ≤ endT`) and, per
+recorded coin, what has left its escrow account is exactly `trunc(ratio(now)·A)`. -/
+theorem C12_released_equals_schedule_after_reward_block (E : EscrowScheme) (s s' : State) (h t now : Int)
+    (hinv : NoPanicInv s) (hg : GaugeInv E s t) (ht : t ≤ now) (hnc : BlockNoCredit s h)
+    (hrun : ¬ Int.tmod h s.params.checkWindow > 0) (hb : beginBlock s h now = .ok s') :
+    ∀ kv ∈ s'.gauges, kv.2.startT ≤ now ∧ now ≤ kv.2.endT ∧ ∀ c ∈ kv.2.coins,
+      withdrawn s'.bank kv.2 c.1 c.2 = Dec.trunc (would kv.2.startT kv.2.endT now c.2) := by
+  have fx := beginBlock_fx hinv.2 (hg.advance ht) hnc hrun hb
+  intro kv hkv
+  obtain ⟨l1, l2⟩ := fx.live kv hkv
+  exact ⟨((hg.advance ht).ok kv (fx.sub kv hkv)).started, l1, l2⟩
+
+/-- **C12, histories: released = schedule at reward blocks.**  For every history satisfying `HistOk` and
+`NoCreditAlong`, from a state satisfying the invariants (e.g. genesis), at every block event
+`(h, now, block)` of it: the history up to it runs (to `s1`), the block does not panic (giving `s2`),
+and if the reward path runs at this height, then immediately afterwards every stored gauge is live and
+its cumulative release `A − bal` equals `Dec.trunc (would startT endT now A)` — the elapsed fraction of
+its duration, in whole microseconds, applied to the recorded deposit, rounded down — per recorded
+coin. -/
+theorem C12_released_equals_schedule_at_reward_blocks_along_histories (E : EscrowScheme)
+    (pre post : List (Int × Int × BEv)) (h now : Int) (s : State) (t0 : Int)
+    (hinv : NoPanicInv s) (hg : GaugeInv E s t0)
+    (hh : HistOk E s t0 (pre ++ (h, now, .block) :: post))
+    (hn : NoCreditAlong s (pre ++ (h, now, .block) :: post)) :
+    ∃ s1 s2, runB s pre = some s1 ∧ beginBlock s1 h now = .ok s2 ∧
+      (¬ Int.tmod h s1.params.checkWindow > 0 →
+        ∀ kv ∈ s2.gauges, kv.2.startT ≤ now ∧ now ≤ kv.2.endT ∧ ∀ c ∈ kv.2.coins,
+          withdrawn s2.bank kv.2 c.1 c.2 = Dec.trunc (would kv.2.startT kv.2.endT now c.2)) := by
+  have hpre : HistOk E s t0 pre := by
+    obtain ⟨s', hr⟩ := C05_history_never_panics_unconditional E _ s t0 hinv hg hh
+    clear hn
+    induction pre generalizing s t0 with
+    | nil => trivial
+    | cons ev pre ih =>
+      obtain ⟨h', now', ev'⟩ := ev
+      cases ev' with
+      | msg op =>
+        simp only [List.cons_append, HistOk, runB] at hh hr ⊢
+        refine ⟨hh.1, hh.2.1, ih _ now' ?_ (stepT_gaugeInv (hg.advance hh.1) hh.2.1) hh.2.2 hr⟩
+        unfold stepT
+        cases hs : step s h' now' op with
+        | none => simpa using hinv
+        | some s1 => simpa using (C05_validation_establishes_sizes s s1 h' now' hinv).1 op hs
+      | block =>
+        simp only [List.cons_append, HistOk, runB] at hh hr ⊢
+        refine ⟨hh.1, fun s1 hb => ?_⟩
+        rw [hb] at hr
+        exact ih s1 now' ((C05_validation_establishes_sizes s s1 h' now' hinv).2 hb)
+          (beginBlock_gaugeInv hinv.2 (hg.advance hh.1) hb) (hh.2 s1 hb) hr
+  obtain ⟨s1, hr1⟩ := C05_history_never_panics_unconditional E pre s t0 hinv hg hpre
+  obtain ⟨_, _, hh1, hn1⟩ := hist_split E pre _ s s1 t0 hh hn hr1
+  obtain ⟨hinv1, hg1⟩ := C05_invariants_along_histories E pre s s1 t0 hinv hg hpre hr1
+  obtain ⟨ht, _⟩ := hh1
+  obtain ⟨hnc, _⟩ := hn1
+  obtain ⟨s2, hb⟩ := C05_beginBlock_never_panics s1 h now hinv1 (hg1.advance ht).gaugesSafe
+  exact ⟨s1, s2, hr1, hb, fun hrun =>
+    C12_released_equals_schedule_after_reward_block E s1 s2 h _ now hinv1 hg1 ht hnc hrun hb⟩
+
+/-- **C12, histories: nothing is released outside the interval.**  At every block event
+`(h, now, block)` of such a history (notation as above):
+* no gauge with `startT > now` is stored, before or after the block;
+* if the reward path runs, a stored gauge with `endT < now` is removed from the store (no gauge with
+  its id is stored afterwards) and **no balance of its escrow account changes**: nothing is released
+  from it, and whatever was still in escrow stays there — the model (like the chain) never moves it
+  again, since only `pullTokensFromGauges` on a *stored* gauge debits an escrow account. -/
+theorem C12_nothing_released_outside_interval_along_histories (E : EscrowScheme)
+    (pre post : List (Int × Int × BEv)) (h now : Int) (s : State) (t0 : Int)
+    (hinv : NoPanicInv s) (hg : GaugeInv E s t0)
+    (hh : HistOk E s t0 (pre ++ (h, now, .block) :: post))
+    (hn : NoCreditAlong s (pre ++ (h, now, .block) :: post)) :
+    ∃ s1 s2, runB s pre = some s1 ∧ beginBlock s1 h now = .ok s2 ∧
+      (∀ kv ∈ s1.gauges, kv.2.startT ≤ now) ∧ (∀ kv ∈ s2.gauges, kv.2.startT ≤ now) ∧
+      (¬ Int.tmod h s1.params.checkWindow > 0 → ∀ kv ∈ s1.gauges, kv.2.endT < now →
+        AMap.get s2.gauges kv.1 = none ∧ ∀ d, bal s2.bank kv.2.account d = bal s1.bank kv.2.account d) := by
+  obtain ⟨s1, s2, hr1, hb, _⟩ :=
+    C12_released_equals_schedule_at_reward_blocks_along_histories E pre post h now s t0 hinv hg hh hn
+  have hpre : HistOk E s t0 pre ∧ NoCreditAlong s pre ∧ _ ∧ _ := hist_split E pre _ s s1 t0 hh hn hr1
+  obtain ⟨hpre, _, hh1, hn1⟩ := hpre
+  obtain ⟨hinv1, hg1⟩ := C05_invariants_along_histories E pre s s1 t0 hinv hg hpre hr1
+  obtain ⟨ht, _⟩ := hh1
+  obtain ⟨hnc, _⟩ := hn1
+  have hg1' := hg1.advance ht
+  have hg2 := beginBlock_gaugeInv hinv1.2 hg1' hb
+  refine ⟨s1, s2, hr1, hb, fun kv hkv => (hg1'.ok kv hkv).started, fun kv hkv => (hg2.ok kv hkv).started, ?_⟩
+  intro hrun kv hkv hend
+  have fx := beginBlock_fx hinv1.2 hg1' hnc hrun hb
+  refine ⟨?_, fx.frozen kv hkv (Or.inl hend)⟩
+  cases hget : AMap.get s2.gauges kv.1 with
+  | none => rfl
+  | some g' =>
+    exfalso
+    have hm2 := AMap.mem_of_get hget
+    have hm1 := fx.sub _ hm2
+    have e := wf_unique hg1'.wf hm1 hkv rfl
+    have hl := (fx.live _ hm2).1
+    rw [e] at hl
+    omega
+
+/-- monotonicity, the induction: `R1` is a cumulative release of gauge `k` (started at `T1`) in
+denomination `d`, observed no later than time `t`; it stays a lower bound of the cumulative release
+of that gauge at every later state -/
+theorem released_mono_core (E : EscrowScheme) (k d : String) (T1 R1 : Int) :
+    ∀ (mid : List (Int × Int × BEv)) (s s2 : State) (t : Int),
+      NoPanicInv s → GaugeExact E s t → HistOk E s t mid → NoCreditAlong s mid → runB s mid = some s2 →
+      (t ≤ T1 → R1 ≤ 0) →
+      (∀ kv ∈ s.gauges, kv.1 = k → kv.2.startT = T1 → ∀ c ∈ kv.2.coins, c.1 = d →
+        R1 ≤ withdrawn s.bank kv.2 c.1 c.2) →
+      ∀ kv ∈ s2.gauges, kv.1 = k → kv.2.startT = T1 → ∀ c ∈ kv.2.coins, c.1 = d →
+        R1 ≤ withdrawn s2.bank kv.2 c.1 c.2
+  | [], s, s2, _, _, _, _, _, hr, _, hm => by
+    simp only [runB, Option.some.injEq] at hr; subst hr; exact hm
+  | (h, now, .msg op) :: rest, s, s2, t, hinv, hg, hh, hn, hr, hz, hm => by
+    simp only [runB] at hr
+    obtain ⟨ht, hok, hrest⟩ := hh
+    obtain ⟨hnc, hnrest⟩ := hn
+    have hg' := hg.advance ht
+    have fx := stepT_fx (h := h) hg' hok hnc
+    refine released_mono_core E k d T1 R1 rest _ s2 now ?_ (stepT_gaugeExact hg' hok hnc) hrest hnrest hr
+      (fun hle => hz (by omega)) ?_
+    · unfold stepT
+      cases hs : step s h now op with
+      | none => simpa using hinv
+      | some s1 => simpa using (C05_validation_establishes_sizes s s1 h now hinv).1 op hs
+    · intro kv hkv hk hT c hc hd
+      rcases fx kv hkv with ⟨hmem, hbal⟩ | ⟨f1, _, f3, _⟩
+      · have := hm kv hmem hk hT c hc hd
+        unfold withdrawn at this ⊢
+        rw [hbal]; exact this
+      · unfold withdrawn
+        rw [f3 c hc]
+        exact hz (by omega)
+  | (h, now, .block) :: rest, s, s2, t, hinv, hg, hh, hn, hr, hz, hm => by
+    simp only [runB] at hr
+    obtain ⟨ht, hrest⟩ := hh
+    obtain ⟨hnc, hnrest⟩ := hn
+    have hg' := hg.advance ht
+    split at hr
+    · rename_i s1 hb
+      have hmono := beginBlock_released_mono hinv.2 hg' hnc hb
+      refine released_mono_core E k d T1 R1 rest s1 s2 now
+        ((C05_validation_establishes_sizes s s1 h now hinv).2 hb) (beginBlock_gaugeExact hinv.2 hg' hnc hb)
+        (hrest s1 hb) (hnrest s1 hb) hr (fun hle => hz (by omega)) ?_
+      intro kv hkv hk hT c hc hd
+      obtain ⟨hmem, hle⟩ := hmono kv hkv
+      exact Int.le_trans (hm kv hmem hk hT c hc hd) (hle c hc)
+    · simp at hr
+
+/-- **C12, histories: the cumulative release never decreases.**  Take two states of a history that
+satisfies `HistOk` and `NoCreditAlong` from a state satisfying the invariants: `s1` after `pre`, `s2`
+after `pre ++ mid`.  A gauge stored in both — the same id and the same start time, which identifies a
+gauge even if the id oracle of the model re-issued the id of a removed gauge later — has, per
+denomination, released at `s2` at least what it had released at `s1`.  (A same-block deposit into the
+gauge in between changes its recorded amount and end, not this: both sides are then 0.) -/
+theorem C12_cumulative_release_nondecreasing_along_histories (E : EscrowScheme)
+    (pre mid : List (Int × Int × BEv)) (s s1 s2 : State) (t0 : Int)
+    (hinv : NoPanicInv s) (hg : GaugeExact E s t0)
+    (hh : HistOk E s t0 (pre ++ mid)) (hn : NoCreditAlong s (pre ++ mid))
+    (hr1 : runB s pre = some s1) (hr2 : runB s1 mid = some s2) :
+    ∀ kv1 ∈ s1.gauges, ∀ kv2 ∈ s2.gauges, kv1.1 = kv2.1 → kv1.2.startT = kv2.2.startT →
+      ∀ c1 ∈ kv1.2.coins, ∀ c2 ∈ kv2.2.coins, c1.1 = c2.1 →
+        withdrawn s1.bank kv1.2 c1.1 c1.2 ≤ withdrawn s2.bank kv2.2 c2.1 c2.2 := by
+  obtain ⟨hpre, hnpre, hh1, hn1⟩ := hist_split E pre mid s s1 t0 hh hn hr1
+  obtain ⟨hinv1, hg1⟩ := C12_gaugeExact_along_histories E pre s s1 t0 hinv hg hpre hnpre hr1
+  intro kv1 hkv1 kv2 hkv2 hk hT c1 hc1 c2 hc2 hd
+  have hok1 := hg1.inv.ok kv1 hkv1
+  refine released_mono_core E kv1.1 c1.1 kv1.2.startT (withdrawn s1.bank kv1.2 c1.1 c1.2) mid s1 s2 _
+    hinv1 hg1 hh1 hn1 hr2 ?_ ?_ kv2 hkv2 hk.symm hT.symm c2 hc2 hd.symm
+  · intro hle
+    obtain ⟨t', a1, a2, _, a4⟩ := (hg1.exact kv1 hkv1).at_
+    have : t' = kv1.2.startT := by omega
+    subst this
+    unfold withdrawn
+    rw [a4 c1 hc1, trunc_would_start hok1.long]
+    exact Int.le_refl _
+  · intro kv hkv hk' _ c hc hd'
+    have := wf_unique hg1.inv.wf hkv hkv1 hk'
+    subst this
+    obtain ⟨e1, e2⟩ := hok1.coins.mem hc
+    obtain ⟨e3, e4⟩ := hok1.coins.mem hc1
+    have : c = c1 := Prod.ext (by rw [e1, e3]) (by rw [e2, e4])
+    subst this
+    exact Int.le_refl _
+
+end Canine.Storage
+
+/-! ### non-vacuity: the concrete history of `Props/C05.lean`
+
+`exHist`: alice and bob buy the same plan in the same block (one gauge "g1" recording
+4666666 + 4666666 = 9333332 ujkl, all of it in escrow "esc/g1"), then two reward blocks one and two days
+later (heights 3 and 6, check window 3).  The hypotheses of the theorems above hold for it, and the
+released amounts are exactly 1/30 and 2/30 of the deposit, rounded down. -/
+namespace Canine.Storage
+open Bank GI
+
+theorem exBlock1 : beginBlock exS2 3 (exT0 + dayNs) = .ok (exSt 311113 9022221) :=
+  beginBlock_no_files exS2 _ [("ujkl", 311111)] _ _ rfl rfl (by decide) (by rfl)
+
+theorem exBlock2 : beginBlock (exSt 311113 9022221) 6 (exT0 + 2 * dayNs) = .ok (exSt 622224 8711110) :=
+  beginBlock_no_files _ _ [("ujkl", 311111)] _ _ rfl rfl (by decide) (by rfl)
+
+/-- the merged gauge of the example -/
+def exG2 : Gauge := { exG with coins := [("ujkl", 9333332)] }
+
+/-- **`NoCreditAlong` holds for the example**: the POL and fee accounts are not "esc/g1", the escrow
+account is empty before the first purchase, no prover is paid. -/
+theorem exNoCredit : NoCreditAlong exS0 exHist := by
+  simp only [exHist, NoCreditAlong, exStep, exStep2]
+  have hp : ∀ a, a ∈ ["pol", "fee"] → a ≠ "esc/g1" := by
+    intro a ha
+    simp only [List.mem_cons, List.not_mem_nil, or_false] at ha
+    rcases ha with e | e <;> subst e <;> decide
+  refine ⟨⟨?_, ?_⟩, ⟨?_, ?_⟩, ?_, fun s' hb => ⟨?_, fun _ _ => trivial⟩⟩
+  · intro a ha
+    refine ⟨fun kv hkv => ?_, fun gid gacc hop => ?_⟩
+    · rw [show exS0.gauges = [] from rfl] at hkv; simp at hkv
+    · simp only [exOp, Op.gaugeOf, Option.some.injEq, Prod.mk.injEq] at hop
+      obtain ⟨_, rfl⟩ := hop
+      exact hp a ha
+  · intro gid gacc hop _
+    simp only [exOp, Op.gaugeOf, Option.some.injEq, Prod.mk.injEq] at hop
+    obtain ⟨_, rfl⟩ := hop
+    exact ⟨by decide, by decide⟩
+  · intro a ha
+    refine ⟨fun kv hkv => ?_, fun gid gacc hop => ?_⟩
+    · simp only [exS1, List.mem_singleton] at hkv
+      subst hkv; exact hp a ha
+    · simp only [exOp2, Op.gaugeOf, Option.some.injEq, Prod.mk.injEq] at hop
+      obtain ⟨_, rfl⟩ := hop
+      exact hp a ha
+  · intro gid gacc hop hget
+    simp only [exOp2, Op.gaugeOf, Option.some.injEq, Prod.mk.injEq] at hop
+    obtain ⟨rfl, _⟩ := hop
+    simp [exS1, AMap.get] at hget
+  · intro pw hpw
+    rw [show blockTracker exS2 3 = [] from rfl] at hpw; simp at hpw
+  · rw [exBlock1] at hb; cases hb
+    intro pw hpw
+    rw [show blockTracker (exSt 311113 9022221) 6 = [] from rfl] at hpw; simp at hpw
+
+/-- the exact invariant holds at genesis of the example, hence (by the theorem) at its end -/
+example : GaugeExact exE (exSt 622224 8711110) (exT0 + 2 * dayNs) :=
+  (C12_gaugeExact_along_histories exE exHist exS0 _ exT0 exHyps.1
+    (GaugeExact.init exE exS0 exT0 rfl exHyps.2.1.bank) exHyps.2.2 exNoCredit exRun).2
+
+/-- **after the first reward block** (one day of thirty): the theorem applies — its hypotheses hold,
+the reward path runs at height 3 — and says the gauge has released exactly `trunc(ratio·A)`; … -/
+example : ∀ kv ∈ (exSt 311113 9022221).gauges, kv.2.startT ≤ exT0 + dayNs ∧ exT0 + dayNs ≤ kv.2.endT ∧
+    ∀ c ∈ kv.2.coins, withdrawn (exSt 311113 9022221).bank kv.2 c.1 c.2
+      = Dec.trunc (would kv.2.startT kv.2.endT (exT0 + dayNs) c.2) := by
+  obtain ⟨s1, s2, h1, h2, h3⟩ := C12_released_equals_schedule_at_reward_blocks_along_histories exE
+    [(2, exT0, .msg exOp), (2, exT0, .msg exOp2)] [(6, exT0 + 2 * dayNs, .block)] 3 (exT0 + dayNs) exS0 exT0
+    exHyps.1 exHyps.2.1 exHyps.2.2 exNoCredit
+  simp only [runB, exStep, exStep2, Option.some.injEq] at h1
+  subst h1
+  rw [exBlock1] at h2; cases h2
+  exact h3 (by decide)
+
+/-- … **the exact amounts**: 311111 = ⌊9333332/30⌋ after the first reward block, 622222 =
+⌊2·9333332/30⌋ after the second, both equal to the schedule value `Dec.trunc (would …)`. -/
+example :
+    (exSt 311113 9022221).gauges = [("g1", exG2)] ∧ (exSt 622224 8711110).gauges = [("g1", exG2)] ∧
+    withdrawn (exSt 311113 9022221).bank exG2 "ujkl" 9333332 = 311111 ∧
+    Dec.trunc (would exG2.startT exG2.endT (exT0 + dayNs) 9333332) = 311111 ∧
+    withdrawn (exSt 622224 8711110).bank exG2 "ujkl" 9333332 = 622222 ∧
+    Dec.trunc (would exG2.startT exG2.endT (exT0 + 2 * dayNs) 9333332) = 622222 := by
+  refine ⟨rfl, rfl, ?_, ?_, ?_, ?_⟩ <;> decide
+
+/-- monotonicity on the example: between the states after the two purchases, after the first and
+after the second reward block (0 ≤ 311111 ≤ 622222), as instances of the theorem -/
+example : ∀ c1 ∈ exG2.coins, ∀ c2 ∈ exG2.coins, c1.1 = c2.1 →
+    withdrawn (exSt 311113 9022221).bank exG2 c1.1 c1.2 ≤ withdrawn (exSt 622224 8711110).bank exG2 c2.1 c2.2 := by
+  have h1 : runB exS0 [(2, exT0, .msg exOp), (2, exT0, .msg exOp2), (3, exT0 + dayNs, .block)]
+      = some (exSt 311113 9022221) := by
+    simp only [runB, exStep, exStep2, exBlock1]
+  have h2 : runB (exSt 311113 9022221) [(6, exT0 + 2 * dayNs, .block)] = some (exSt 622224 8711110) := by
+    simp only [runB, exBlock2]
+  exact C12_cumulative_release_nondecreasing_along_histories exE
+    [(2, exT0, .msg exOp), (2, exT0, .msg exOp2), (3, exT0 + dayNs, .block)] [(6, exT0 + 2 * dayNs, .block)]
+    exS0 _ _ exT0 exHyps.1
+    (GaugeExact.init exE exS0 exT0 rfl exHyps.2.1.bank) exHyps.2.2 exNoCredit h1 h2
+    ("g1", exG2) (by simp [exSt, exS2, exG2]) ("g1", exG2) (by simp [exSt, exS2, exG2]) rfl rfl
+
+end Canine.Storage
+
+/-! ### the side condition is needed, and what it excludes
+
+`NoCredit.fresh` excludes an escrow account that holds coins before its gauge exists.  That is
+reachable (anybody can compute the hash-derived address of a gauge that a purchase at a given height
+will create and send coins there; in the model: a genesis balance, or a `buyStorage` naming it as
+referrer).  It is harmless, and the equality repairs itself at the next reward block — but it is not
+an equality meanwhile: -/
+namespace Canine.Storage
+open Bank GI
+
+/-- `exS0` with 1000 ujkl already sitting on the address that will be gauge g1's escrow account -/
+def exS0p : State := { exS0 with bank := exS0.bank ++ [(("esc/g1", "ujkl"), 1000)] }
+/-- … after alice's purchase (4666666 deposited, 4667666 in escrow) -/
+def exP1 : State :=
+  { exS1 with bank := [(("alice", "ujkl"), 999986666667), (("bob", "ujkl"), 1000000000000), (("esc/g1", "ujkl"), 4667666),
+                       (("mod", "ujkl"), 1), (("pol", "ujkl"), 5333333), (("fee", "ujkl"), 3333333)] }
+/-- … after the reward block one day later -/
+def exP2 : State :=
+  { exS1 with bank := [(("alice", "ujkl"), 999986666667), (("bob", "ujkl"), 1000000000000), (("esc/g1", "ujkl"), 4511111),
+                       (("mod", "ujkl"), 156556), (("pol", "ujkl"), 5333333), (("fee", "ujkl"), 3333333)] }
+/-- … after a reward block past the gauge's end (day 31 of 30) -/
+def exP3 : State := { exP2 with gauges := [] }
+
+/-- **Why `NoCredit.fresh` is there.**  With a pre-funded escrow address the purchase succeeds, and
+`A − bal = −1000` although the schedule value at the start is 0: the equality fails (the bound of
+`C12_never_ahead_of_schedule_along_histories` holds).  The next reward block releases
+156555 = 155555 + 1000 — the scheduled amount *and the foreign coins* go to the reward pool — and
+afterwards `A − bal = 155555 = ⌊4666666/30⌋` again, as `C12_released_equals_schedule_after_reward_block`
+says (it needs no hypothesis on earlier credits). -/
+theorem C12_prefunded_escrow_is_released_with_the_first_block :
+    stepT exS0p 2 exT0 exOp = exP1 ∧ withdrawn exP1.bank exG "ujkl" 4666666 = -1000 ∧
+    Dec.trunc (would exG.startT exG.endT exT0 4666666) = 0 ∧
+    beginBlock exP1 3 (exT0 + dayNs) = .ok exP2 ∧ withdrawn exP2.bank exG "ujkl" 4666666 = 155555 ∧
+    Dec.trunc (would exG.startT exG.endT (exT0 + dayNs) 4666666) = 155555 :=
+  ⟨by rfl, by decide, by decide, beginBlock_no_files exP1 _ [("ujkl", 156555)] _ _ rfl rfl (by decide) (by rfl),
+   by decide, by decide⟩
+
+/-- **What is not released by the end stays in escrow.**  No reward block happened to fall exactly on
+the end of the gauge; the first one after it (day 31) removes the gauge and transfers nothing: the
+4511111 ujkl that were still in escrow remain on an account no code path debits again
+(`C12_nothing_released_outside_interval_along_histories` is the general statement). -/
+theorem C12_remainder_stays_in_escrow_after_removal :
+    beginBlock exP2 93 (exT0 + 31 * dayNs) = .ok exP3 ∧ exP3.gauges = [] ∧
+    bal exP3.bank "esc/g1" "ujkl" = 4511111 :=
+  ⟨beginBlock_no_files exP2 _ [] _ _ rfl rfl (by decide) (by rfl), rfl, by decide⟩
 
 end Canine.Storage
